@@ -2,6 +2,7 @@
 import itertools
 import json
 import random
+import re
 import zlib
 
 import common
@@ -21,7 +22,8 @@ PARTIAL = ['"re-parsing the new text yields a tree that shows the same change" i
            'reparse-differs), not proved (it needs the completeness of the parser), and only for edits whose result is itself '
            'a document of the grammar: the original tree is a fixpoint of str/parse, old and new names are plain identifiers '
            'without a special role in the reader (not \\item, no fixed signature, no math/verbatim environment name, no sizing '
-           'prefix), new strings are letters, digits and blanks with at least one non-blank, arguments are groups']
+           'prefix), new strings are letters, digits and blanks with at least one non-blank, the new argument list is one that the reader reads back '
+           '([..]*{..}*[..]*{..}* after a command, [..]*{..}* after \\begin{name})']
 TRUSTED = ['hand-written model of the node edits (lean/TexSoupModel/Edit.lean), tied to TexSoup/data.py by the '
            'correspondence run only',
            'correspondence harness (props/c14.py, lib_edit.py): structural paths, node acquisition through .contents by '
@@ -246,6 +248,7 @@ def check_edit(base, before, fixpoint, op):
             strict = False
         elif not isinstance(x, D.TexCmd):
             strict = not any(L.flat_contents(a) for a in x.args)
+    eligible = fixpoint and reparse_eligible(P, x)
     chosen = None
     if kind == 'aop':
         chosen = [id(a) for a in res[2]['ref']]
@@ -279,8 +282,9 @@ def check_edit(base, before, fixpoint, op):
         if old == new:
             ok = g_old == f_old
         else:
-            ok = (f_old.count(me) == 1 and me not in f_new and g_new.count(me) == 1 and me not in g_old and
-                  [i for i in f_old if i != me] == g_old and [i for i in g_new if i != me] == f_new)
+            ok = me not in f_new and g_new.count(me) == 1 and [i for i in g_new if i != me] == f_new
+            if '{' not in old and '[' not in old:      # otherwise find_all(old) is a full-text query, not a name
+                ok = ok and f_old.count(me) == 1 and me not in g_old and [i for i in f_old if i != me] == g_old
         if not ok:
             return ('rename-search', '%s: find_all(%r) had %d results and has %d, find_all(%r) had %d and has %d; the '
                     'renamed node must move from the one to the other and nothing else' % (
@@ -288,7 +292,7 @@ def check_edit(base, before, fixpoint, op):
         if soup.count(new) != len(g_new) or (g_new and soup.find(new).expr is not soup.find_all(new)[0].expr):
             return ('rename-search', '%s: count/find(%r) disagree with find_all' % (what, new))
     # explored clause: the re-parsed text shows the same change
-    if fixpoint and reparse_eligible(P, x):
+    if eligible:
         try:
             again = _canon(T.TexSoup(after))
         except RecursionError:
@@ -314,7 +318,15 @@ def reparse_eligible(P, x):
     if P.kind == 'ren':
         return ordinary(P.name) and ordinary(str(x.name))
     if P.kind in ('args', 'aop'):
-        return ordinary(str(x.name)) and all(isinstance(m, D.TexGroup) for m in P.mats)
+        if P.kind == 'args':
+            new = P.mats
+        else:
+            new = L._list_op(P, list(x.args))
+        shape = ''.join('o' if isinstance(a, D.BracketGroup) else 'r' if isinstance(a, D.BraceGroup) else '?'
+                        for a in new)
+        # what read_args reads back: [..]*{..}*[..]*{..}* after a command, [..]*{..}* after \begin{name}
+        pattern = r'o*r*\Z' if isinstance(x, D.TexNamedEnv) else r'o*r*o*r*\Z'
+        return ordinary(str(x.name)) and re.match(pattern, shape) is not None
     if P.kind == 'str':
         return _plain_text(P.string)
     return False
@@ -377,11 +389,11 @@ def oracle(ctx, seeds, scale):
     for s in seeds:
         if isinstance(s, dict) and isinstance(s.get('doc'), str) and s['doc'] not in seed_docs:
             seed_docs.append(s['doc'])
-    cap = ctx.pick(10, None)
+    cap = ctx.pick(8, None)
     units = c05._units(seed_docs[:60], rng, None, per=1)
     fixed = _fixed() + [d for d in c05.documents(rng, 0, corpus_max=ctx.pick(300, 1500)) if d not in FIXED]
     units += c05._units(fixed, rng, cap, per=2)
-    units += c05._units(ctx.pick(500, 4000) * scale, rng, cap)
+    units += c05._units(ctx.pick(320, 4000) * scale, rng, cap)
     c05._collect_oracle(r, _util.pmap(_oracle_unit, units))
     r.failures.sort(key=lambda f: len(f['input']['doc']))
     r.sample({'doc': '\\begin{a}t\\end{a}', 'edit': "node.name = 'q' (node at b0)", 'expected': '\\begin{q}t\\end{q}',
